@@ -96,7 +96,9 @@ def evaluate(case, out):
             for i, s in enumerate(sizes):
                 for p in range(1, s + 1):
                     cvrs.append(CVR(id=(f"{10 + i}-{100 + i}-{p}" if dom else f"{100 + i}_{p}"), card_in_batch=p, votes={}))
-            cvrs += [CVR(id=f"phantom-1-{j + 1}", votes={}, phantom=True) for j in range(nph)]
+            # (make_phantoms takes the prefix of the phantom identifiers from the caller: word-batch-card is all the lookups need)
+            pfx = ["phantom-1-", "unfound-1-", "P-2-"][(total + nph) % 3]
+            cvrs += [CVR(id=f"{pfx}{j + 1}", votes={}, phantom=True) for j in range(nph)]
             rng = random.Random(case["order"])
             idx = list(range(len(cvrs)))
             rng.shuffle(idx)
